@@ -22,6 +22,28 @@ model instantiated with the reference constants. -/
 theorem params_eq : Gen.params = Ref.params := by
   unfold Gen.params Ref.params; rw [tables]
 
+/-- **Main theorem.**  For every valid variant, every build configuration, every
+option setting and every byte string (of any length, including ≥ 4 GiB), the
+model of `new(); update(data); finalize_with_options(o)` returns exactly what
+the reference algorithm `Spec.tlsh` returns: the same hash, or the same
+rejection. -/
+theorem generate_eq_spec (cfg : Cfg) (v : Variant) (hv : v.Valid) (o : Options) (data : List UInt8) :
+    generate Ref.params cfg v o data = specOutcome (Spec.tlsh v o data) :=
+  generate_ref_eq_spec cfg v hv o data
+
+/-- The same for the model at the current source's constants, fed in any chunking. -/
+theorem generate_chunked_eq_spec (cfg : Cfg) (v : Variant) (hv : v.Valid) (o : Options)
+    (ps : List (List UInt8)) :
+    genFinalize Gen.params cfg v (ps.foldl (genUpdate Gen.params cfg v) (genInit cfg v)) o
+      = specOutcome (Spec.tlsh v o ps.flatten) := by
+  rw [params_eq]
+  have h : ps.foldl (genUpdate Ref.params cfg v) (genInit cfg v)
+      = genUpdate Ref.params cfg v (genInit cfg v) ps.flatten := by
+    show ps.foldl (update _) (init _) = update _ (init _) _
+    rw [← ideal_nil, foldl_update_ideal, update_ideal]
+  rw [h]
+  exact generate_eq_spec cfg v hv o ps.flatten
+
 /-- Known answer inside the kernel: the reference algorithm over the frozen
 tables reproduces an official digest (doc example of `GeneratorOptions`,
 "T14A90024954691E1144…8173"). -/
